@@ -599,11 +599,16 @@ def op_iter(w: World, a, b, c, d, e):
     visited = []
     touched = []
     n = 0
+    created = 0
+    # An index holds each entity at most once, search() looks at the name sets and then one class set, and the loop
+    # body creates at most 5 entities: more yields than this means the iteration does not terminate by itself.
+    limit = 4 * (len(vmf.entities) + 10)
     try:
         for x in it:
             n += 1
-            if n > 400:
-                w.fail('iter_unbounded', f'iteration over {txt} yielded more than 400 entities')
+            if n > limit:
+                w.fail('iter_unbounded', f'iteration over {txt} yielded more than {limit} entities '
+                       f'({len(vmf.entities)} in the map)')
                 break
             visited.append(x)
             i = w.find(x)
@@ -621,6 +626,9 @@ def op_iter(w: World, a, b, c, d, e):
             elif action == 2:
                 x[CKEYS[i % 3]] = w.cls(e + i)
             elif action == 3:
+                created += 1
+                if created > 5 or len(w.pool) > 60:
+                    continue
                 new = vmf.create_ent(x['classname'], targetname=x['targetname'])
                 w.pool.append([new, mi])
                 w.inmap.append(True)
@@ -774,17 +782,17 @@ def _sub(name: str, quick: int, thorough: int, floor: int, must_hit) -> Sub:
 
 
 SUBCHECKS = [
-    _sub('reclass', 1200, 60000, 100, ('rename_mixed_case', 'reclass_mixed_case', 'remove_mixed_case', 'set_detached',
+    _sub('reclass', 1200, 40000, 100, ('rename_mixed_case', 'reclass_mixed_case', 'remove_mixed_case', 'set_detached',
                                        'op:update')),
-    _sub('delete', 1200, 60000, 100, ('del_indexed', 'pop_indexed', 'clear_inmap', 'del_target_detached', 'clear_detached')),
-    _sub('lifecycle', 1000, 50000, 100, ('remove_mixed_case', 'cross_map_copy', 'add_ents_many', 'make_unique_inmap',
+    _sub('delete', 1200, 40000, 100, ('del_indexed', 'pop_indexed', 'clear_inmap', 'del_target_detached', 'clear_detached')),
+    _sub('lifecycle', 1000, 30000, 100, ('remove_mixed_case', 'cross_map_copy', 'add_ents_many', 'make_unique_inmap',
                                          'remove_detached', 'no_classname_entity')),
-    _sub('spawn', 600, 30000, 50, ('spawn_reclass_attempt', 'spawn_rename', 'spawn_del_class',
+    _sub('spawn', 600, 16000, 50, ('spawn_reclass_attempt', 'spawn_rename', 'spawn_del_class',
                                    'spawn_pop_class', 'spawn_clear')),
-    _sub('parse', 600, 30000, 50, ('parsed_map_with_ents', 'remove_inmap', 'op:set', 'op:copy')),
-    _sub('iterate', 800, 40000, 50, ('iter_mutated_multi', 'iter_by_class', 'iter_by_target', 'iter_search',
+    _sub('parse', 600, 16000, 50, ('parsed_map_with_ents', 'remove_inmap', 'op:set', 'op:copy')),
+    _sub('iterate', 800, 24000, 50, ('iter_mutated_multi', 'iter_by_class', 'iter_by_target', 'iter_search',
                                      'iter_search_prefix')),
-    _sub('mixed', 1200, 60000, 100, ('rename_mixed_case', 'del_indexed', 'pop_indexed', 'clear_inmap', 'iter_mutated',
+    _sub('mixed', 1200, 50000, 100, ('rename_mixed_case', 'del_indexed', 'pop_indexed', 'clear_inmap', 'iter_mutated',
                                      'cross_map_copy', 'spawn_reclass_attempt', 'parsed_map_with_ents')),
 ]
 
